@@ -102,6 +102,7 @@ type PathResult struct {
 	panicStack []string
 	Events     []string
 	PCSummary  int
+	strBounded bool
 	Nondets    []string
 }
 
@@ -149,7 +150,7 @@ func (it *interpreter) model() map[string]string {
 	if len(it.nondets) == 0 {
 		return nil
 	}
-	if it.solver.Check() != "sat" {
+	if !it.satKnown && it.solver.Check() != "sat" {
 		return nil
 	}
 	names := make([]string, len(it.nondets))
@@ -238,7 +239,9 @@ func (it *interpreter) faultIf(cond *Sym, msg string) {
 	r := s.Check()
 	if r == "sat" {
 		fr := it.cur.top
+		it.satKnown = true
 		it.violation("fault", "fault:"+msg+"@"+posOnlyFrame(fr), msg, fr)
+		it.satKnown = false
 	} else if r == "unknown" {
 		it.tainted = true
 		it.res.Bounds = append(it.res.Bounds, "solver unknown on fault condition: "+msg)
@@ -259,7 +262,14 @@ func (it *interpreter) assertProp(fr *frame, cond value, label string) {
 	switch c := cond.(type) {
 	case bool:
 		if !c {
-			it.violation("assert", label, "assertion failed (concrete)", fr)
+			if it.tainted && it.solver.Check() != "sat" {
+				// the path was entered on an "unknown" feasibility verdict: not a finding
+				it.res.Bounds = append(it.res.Bounds, "assertion "+label+" fails on a path whose feasibility the solver could not decide")
+			} else {
+				it.satKnown = it.tainted
+				it.violation("assert", label, "assertion failed (concrete)", fr)
+				it.satKnown = false
+			}
 		}
 		it.res.PCSummary++
 	case *Sym:
@@ -268,7 +278,9 @@ func (it *interpreter) assertProp(fr *frame, cond value, label string) {
 		s.Assert(app("not", c.e))
 		r := s.Check()
 		if r == "sat" {
+			it.satKnown = true
 			it.violation("assert", label, "assertion can fail: "+truncate(c.e, 300), fr)
+			it.satKnown = false
 		} else if r == "unknown" {
 			it.tainted = true
 			it.res.Bounds = append(it.res.Bounds, "solver unknown on assertion "+label)
